@@ -144,6 +144,23 @@ def correspondence(ctx):
             hxb = frames.hx(bytes(b))
             cops.append("tbl " + hxb)
             cops.append("rd b %s 0:%d,%d:10" % (hxb, min(len(x), 4000), max(0, len(x) // 2)))
+    # directed: the buffer is only the TAIL of a valid archive (the footer then claims a seek table that starts before the buffer), buffers shorter
+    # than the 9-byte footer, and frame counts corrupted upward by small amounts (table a few entries longer than what the buffer holds)
+    for (x, a, ln) in keep[:25 if ctx.quick() else 300]:
+        ab = bytes.fromhex(a)
+        if len(ab) < 30 or len(ab) > 200000:
+            continue
+        nf = int.from_bytes(ab[-9:-5], "little"); esz = 12 if ab[-5] & 0x80 else 8
+        tsz = 8 + nf * esz + 9
+        tails = sorted(set([1, 4, 8, 9, 10, 12, 17, max(9, tsz - 1), max(9, tsz - esz), max(9, tsz // 2), rng.randint(9, max(10, min(len(ab), tsz + 20)))]))
+        for t in tails:
+            if t < len(ab):
+                hxb = frames.hx(ab[len(ab) - t:])
+                cops.append("tbl " + hxb); cops.append("rd b %s 0:%d" % (hxb, min(len(x), 300)))
+        for up in (1, 2, 3, rng.randint(4, 2000), len(ab) // esz + 1):
+            b = bytearray(ab); b[-9:-5] = ((nf + up) & 0xFFFFFFFF).to_bytes(4, "little")
+            hxb = frames.hx(bytes(b))
+            cops.append("tbl " + hxb); cops.append("rd b %s 0:%d" % (hxb, min(len(x), 300)))
     cr = frames.parallel(lambda ch: [frames.run_lines(exe, ch, timeout=1800)], frames.split_chunks(cops, 16))
     cflat = []
     for (rc, out, err), ch in zip(cr, frames.split_chunks(cops, 16)):
